@@ -6,7 +6,7 @@ logic of `sample_response`.  Tie H: every C output of `quat_lattice_lll` is fed 
 model driver) and to an independent exact-rational oracle written here (fractions); the dimension-2 routines and the
 sample_response decision logic are compared with their executable Lean models on generated inputs.
 """
-import json, os, subprocess, time
+import atexit, json, os, signal, subprocess, time
 from fractions import Fraction
 import vlib
 
@@ -277,6 +277,75 @@ def gen_unimod_huge(rng, kind, bits):
 UNIMOD_KINDS = ["upper", "lower", "upper*lower", "lower*upper", "block(D,D+1;1,1)"]
 
 
+# ---------------------------------------------------------------------------------- process hygiene
+# Every child (C driver incl. its forked grandchildren under alarm, Lean model driver) runs in its OWN process group
+# with a wall-clock timeout; the whole group is SIGKILLed on timeout, on any exception, and at interpreter exit
+# (atexit + SIGTERM/SIGINT/SIGHUP handlers), so that a hanging routine can never leave a process of this check behind.
+_LIVE_GROUPS = set()
+
+
+def _kill_group(pgid):
+    try:
+        os.killpg(pgid, signal.SIGKILL)
+    except (ProcessLookupError, PermissionError, OSError):
+        pass
+
+
+def _kill_all_groups(*_a):
+    for g in list(_LIVE_GROUPS):
+        _kill_group(g)
+    _LIVE_GROUPS.clear()
+
+
+def _on_signal(signum, _frame):
+    _kill_all_groups()
+    signal.signal(signum, signal.SIG_DFL)
+    os.kill(os.getpid(), signum)
+
+
+atexit.register(_kill_all_groups)
+for _sig in (signal.SIGTERM, signal.SIGINT, signal.SIGHUP):
+    try:
+        signal.signal(_sig, _on_signal)
+    except (ValueError, OSError):      # not in the main thread
+        pass
+
+
+def run_group(cmd, lines, timeout):
+    """run `cmd` with the op lines on stdin in its own session/process group; returns (rc, stdout, stderr, timed_out).
+    The group is killed before returning in every case (normal end included: stragglers of a finished driver)."""
+    p = subprocess.Popen(cmd, stdin=subprocess.PIPE, stdout=subprocess.PIPE, stderr=subprocess.PIPE, start_new_session=True)
+    _LIVE_GROUPS.add(p.pid)
+    timed_out = False
+    try:
+        try:
+            out, err = p.communicate(("\n".join(lines) + "\n").encode(), timeout=timeout)
+        except subprocess.TimeoutExpired:
+            timed_out = True
+            _kill_group(p.pid)
+            out, err = p.communicate()
+        return p.returncode, out.decode("utf-8", "replace"), err.decode("utf-8", "replace")[-4000:], timed_out
+    finally:
+        _kill_group(p.pid)
+        try:
+            p.wait(timeout=5)
+        except Exception:
+            pass
+        _LIVE_GROUPS.discard(p.pid)
+
+
+def alarm_budget(lines, base=60):
+    """wall-clock budget for a batch: the sum of the per-call alarms of the forked lines (+ slack)"""
+    tot = base
+    for l in lines:
+        if l.startswith("! "):
+            try:
+                tot += int(l.split()[1]) + 1
+            except (ValueError, IndexError):
+                tot += 11
+    return tot
+
+
 # ---------------------------------------------------------------------------------- running the two sides
 class Side:
     HANG_BUDGET = 6
@@ -305,7 +374,10 @@ class Side:
                 out += ["skipped"] * len(chunk)
                 self.skipped += len(chunk)
                 continue
-            rc, o, err = vlib.run_c([self.exe[lvl]], chunk, timeout=timeout)
+            rc, so, err, to = run_group([self.exe[lvl]], chunk, min(timeout, alarm_budget(chunk) if forked else timeout))
+            o = [l[2:] for l in so.split("\n") if l.startswith("R ")]
+            if to:
+                err = "C driver exceeded its wall-clock budget and was killed (process group) " + err
             if len(o) < len(chunk):
                 o += ["<no output: C driver stopped rc=%d %s>" % (rc, err[-300:].replace("\n", " "))] * (len(chunk) - len(o))
             if forked:
@@ -313,8 +385,13 @@ class Side:
             out += o
         return out
 
-    def lean(self, lines):
-        return self.ctx.driver(lines)
+    def lean(self, lines, timeout=1800):
+        exe = os.path.join(vlib.LEAN, ".lake", "build", "bin", "driver")
+        rc, so, err, to = run_group([exe], lines, timeout)
+        if to or rc != 0:
+            raise vlib.BuildError("lean driver %s: %s" % ("timed out (killed)" if to else "failed rc=%d" % rc, err[-1500:]))
+        out = so.split("\n")
+        return out[:-1] if so.endswith("\n") else out
 
 
 def frac4(fr):
@@ -979,13 +1056,6 @@ def stage_corpus(ctx, side):
                     ok, why = False, "Lean lllCheck rejects the output (code %s)" % lc
         if ok:
             n_ok += 1
-        elif e.get("open_key") and ow and ow[0] == e.get("open_outcome", "-1") and det_int(lat) != 0:
-            # a finding whose repair is delivered as a patch but not committed yet: exactly this outcome is reported
-            # under its fixed key (KNOWN-FINDING once listed open in known_findings.json); after the fix the entry is
-            # an ordinary regression replay ("expected_after_fix")
-            n_ok += 1
-            hist(ctx, "corpus_open_findings_confirmed", e["open_key"])
-            ctx.violation(e["open_key"], e.get("what", ""), replay)
         else:
             ctx.violation("corpus:" + e.get("name", f), "recorded finding is back (%s): %s" % (e.get("what", "")[:120], why), replay)
     ctx.obligation("corpus of past findings (%d replays) passes on the current tree" % len(files), n_ok == len(files),
